@@ -697,3 +697,96 @@ pub fn given_up_searches(ctx: &Ctx) -> Report {
         rep.case(Some(fnv(format!("{}{}{}", o.how, o.split, o.b_expected.len()).as_bytes())));
     })
 }
+
+/// Operations attempted after the connection has ended are failed operations like any other: none
+/// of them may leave a message ID reserved (a caller retrying on a dead handle must not grow the
+/// table with every attempt).
+pub fn dead_connection(ctx: &Ctx) -> Report {
+    let n = ctx.n(2_000, 500_000);
+    par_cases(ctx, "dead_connection", n, ctx.secs(10, 150), |i, rng, rep| {
+        let warm = rng.usize(3);
+        let attempts: Vec<u8> = (0..1 + rng.usize(12)).map(|_| rng.below(6) as u8).collect();
+        let how = *rng.pick(&["server-eof", "undecodable-frame", "unbind"]);
+        let rt = runtime(rng.next());
+        let at2 = attempts.clone();
+        let (outs, table, drv) = rt.block_on(async move {
+            let c = connect();
+            let mut ldap = c.ldap;
+            let server = c.server;
+            let tx = server.tx();
+            let srv = tokio::spawn(behaviour_server(server));
+            for k in 0..warm {
+                let _ = world::watchdog(invoke(&mut ldap, &Call::Delete { dn: format!("op={},b=normal", k) })).await;
+            }
+            match how {
+                "server-eof" => tx.eof(),
+                "undecodable-frame" => tx.send(&[0x30, 0x00]),
+                _ => {
+                    let _ = world::watchdog(invoke(&mut ldap, &Call::Unbind)).await;
+                }
+            }
+            world::settle().await;
+            world::settle().await;
+            let mut outs = vec![];
+            let mut leaked: Vec<i32> = vec![];
+            for (k, a) in at2.iter().enumerate() {
+                let dn = format!("op={},b=normal", 100 + k);
+                // only attempts made when the handle already reports the connection as closed are judged: an
+                // operation that was accepted and then lost its connection is a different matter
+                let closed_before = ldap.is_closed();
+                let before = ldap.verif_id_table().1;
+                let o = match a {
+                    0 => world::watchdog(invoke(&mut ldap, &Call::Delete { dn })).await.map(|o| o.class()).unwrap_or_else(|_| "Hung".into()),
+                    1 => world::watchdog(invoke(&mut ldap, &Call::Bind { dn, pw: "x".into() })).await.map(|o| o.class()).unwrap_or_else(|_| "Hung".into()),
+                    2 => match world::watchdog(ldap.streaming_search(&dn, Scope::Subtree, "(a=b)", vec!["*"])).await {
+                        Ok(Ok(mut st)) => {
+                            let _ = world::watchdog(st.next()).await;
+                            let _ = st.finish().await;
+                            "Ok".to_string()
+                        }
+                        Ok(Err(e)) => format!("Err({})", world::err_class(&e)),
+                        Err(()) => "Hung".into(),
+                    },
+                    3 => match world::watchdog(ldap.search(&dn, Scope::Subtree, "(a=b)", vec!["*"])).await {
+                        Ok(Ok(_)) => "Ok".to_string(),
+                        Ok(Err(e)) => format!("Err({})", world::err_class(&e)),
+                        Err(()) => "Hung".into(),
+                    },
+                    4 => world::watchdog(invoke(&mut ldap, &Call::Abandon(1))).await.map(|o| o.class()).unwrap_or_else(|_| "Hung".into()),
+                    _ => {
+                        ldap.with_timeout(Duration::from_millis(50));
+                        world::watchdog(invoke(&mut ldap, &Call::Compare { dn, attr: "a".into(), val: b"v".to_vec() })).await.map(|o| o.class()).unwrap_or_else(|_| "Hung".into())
+                    }
+                };
+                world::settle().await;
+                if closed_before {
+                    for id in ldap.verif_id_table().1 {
+                        if !before.contains(&id) {
+                            leaked.push(id);
+                        }
+                    }
+                }
+                outs.push(format!("{}{}", o, if closed_before { "" } else { "(handle still open)" }));
+            }
+            world::settle().await;
+            let table = leaked;
+            drop(ldap);
+            let _ = srv.await;
+            (outs, table, format!("{:?}", c.driver.await))
+        });
+        let replay = json!({"lane":"dead_connection","case":i});
+        if !table.is_empty() {
+            rep.violation(
+                format!("C13:id-retained-after:operation-attempted-on-an-ended-connection:{}", how),
+                format!("connection ended by {}; {} further attempts ({:?}) -> {:?}; IDs still reserved {:?}; driver {}", how, attempts.len(), attempts, outs, table, drv),
+                replay.clone(),
+            );
+        }
+        if outs.iter().any(|o| o.starts_with("Hung")) {
+            rep.violation("C13:operation-on-an-ended-connection-hangs", format!("{:?}", outs), replay);
+        }
+        rep.count(&format!("ended_by_{}", how), 1);
+        rep.count("attempts_on_an_ended_connection", attempts.len() as u64);
+        rep.case(Some(fnv(format!("{}{:?}{}", how, attempts, warm).as_bytes())));
+    })
+}
